@@ -480,6 +480,44 @@ func c32Mangle(r *rand.Rand, codec string, pkts []c32Pkt) []c32Pkt {
 	return pkts
 }
 
+// c32InsertBare puts packets that carry a payload descriptor and no data inside otherwise well-formed
+// VP8/VP9 frames (never in front of a frame): between two packets, or behind the last one, taking over
+// its marker. Such packets are accepted by pion/rtp's depacketizers with an empty Payload.
+func c32InsertBare(r *rand.Rand, codec string, pkts []c32Pkt) []c32Pkt {
+	if codec == "a" {
+		return pkts
+	}
+	for n := 1 + r.Intn(3); n > 0 && len(pkts) > 0; n-- {
+		i := r.Intn(len(pkts))
+		raw := pkts[i].raw
+		var off int
+		if codec == "9" {
+			v := codecs.VP9Packet{}
+			if _, err := v.Unmarshal(raw); err != nil {
+				continue
+			}
+			off = len(raw) - len(v.Payload)
+		} else {
+			v := codecs.VP8Packet{}
+			if _, err := v.Unmarshal(raw); err != nil {
+				continue
+			}
+			off = len(raw) - len(v.Payload)
+		}
+		bare := append([]byte{}, raw[:off]...)
+		if codec == "9" {
+			bare[0] &^= 0x08 // B
+		} else {
+			bare[0] &^= 0x10 // S
+		}
+		ins := c32Pkt{ts: pkts[i].ts, marker: pkts[i].marker, raw: bare}
+		pkts[i].marker = false
+		pkts = append(pkts[:i+1:i+1], append([]c32Pkt{ins}, pkts[i+1:]...)...)
+	}
+
+	return pkts
+}
+
 func c32EmitW(c *Ctx, tag string, cf c32Cfg, pkts []c32Pkt) {
 	descs := c32Descs(cf.codec, pkts)
 	sb := strings.Builder{}
@@ -714,7 +752,8 @@ func init() {
 			"at MTU {100,500,1200,1500,random 20..2020} (a few frames of 65 520..140 000 bytes), RTP timestamps incl. 32-bit wrap-around and irregular steps, " +
 			"options: codec (or none), width/height, frame rates (default, 1/90000, 1001/30000, random 32-bit, edge values, " +
 			"a zero term), direct-PTS; sinks: plain io.Writer, in-memory io.WriteSeeker, *os.File via NewWith, New(fileName); " +
-			"fed to ivfwriter.WriteRTP, closed, read back with ivfreader. w/mal: the same streams after 1-3 network faults " +
+			"fed to ivfwriter.WriteRTP, closed, read back with ivfreader. w/wfb: the same with 1-3 packets that carry only a " +
+			"VP8/VP9 payload descriptor (empty depacketized payload) inside the frames, also as the marker packet. w/mal: the same streams after 1-3 network faults " +
 			"(loss, burst loss, duplicate, swap, flipped marker, truncated / empty / header-only payload, timestamp jitter, " +
 			"garbage packet, flipped descriptor bit). raw: hand-built IVF files (valid; truncated at every kind of boundary; " +
 			"mutated header fields and length fields) read with ivfreader. Packet descriptors (depacketizer verdict) on the op " +
@@ -726,9 +765,15 @@ func init() {
 				cf := c32GenCfg(r)
 				startKey := r.Intn(6) != 0
 				pkts := c32GenStream(r, cf, startKey)
-				if r.Intn(4) == 0 {
+				switch {
+				case r.Intn(4) == 0:
+					if r.Intn(3) == 0 {
+						pkts = c32InsertBare(r, cf.codec, pkts)
+					}
 					c32EmitW(c, "mal", cf, c32Mangle(r, cf.codec, pkts))
-				} else {
+				case cf.codec != "a" && r.Intn(5) == 0:
+					c32EmitW(c, "wfb", cf, c32InsertBare(r, cf.codec, pkts))
+				default:
 					c32EmitW(c, "wf", cf, pkts)
 				}
 			}
